@@ -6,21 +6,21 @@ import random
 import warnings
 
 
-def _world(shares=(10, 20, 30), with_shares=(True, True, True)):
+def _world(shares=(10, 20, 30), with_shares=(True, True, True), index_id=9, first_id=0):
     from pams.index_market import IndexMarket
     from pams.market import Market
     from pams.simulator import Simulator
     sim = Simulator(prng=random.Random(3))
     ms = []
     for i, nm in enumerate("ABC"):
-        m = Market(market_id=i, prng=random.Random(i), simulator=sim, name=nm)
+        m = Market(market_id=first_id + i, prng=random.Random(i), simulator=sim, name=nm)
         cfg = {"tickSize": 0.01, "marketPrice": 100.0 + 10 * i}
         if with_shares[i]:
             cfg["outstandingShares"] = shares[i]
         m.setup(cfg)
         sim._add_market(m)
         ms.append(m)
-    idx = IndexMarket(market_id=9, prng=random.Random(9), simulator=sim, name="I")
+    idx = IndexMarket(market_id=index_id, prng=random.Random(9), simulator=sim, name="I")
     return sim, ms, idx
 
 
@@ -70,13 +70,14 @@ def check_values(case):
     """clock steps with moving prices; every index query (now, explicit past time incl. 0) equals the share-weighted average at that time"""
     rng = random.Random(case["seed"])
     shares = tuple(case["shares"]) if case.get("shares") else tuple(rng.randint(1, 50) for _ in range(3))
-    sim, ms, idx = _world(shares=shares)
+    low = bool(case.get("index_id_low"))          # the index market may have a smaller id than its components (hand-built simulators): "components first" is by kind, not by id
+    sim, ms, idx = _world(shares=shares, index_id=(0 if low else 9), first_id=(1 if low else 0))
     idx.setup({"tickSize": 0.01, "marketPrice": 100.0, "markets": ["ABC"[i] for i in case["comps"]]})
     sim._add_market(idx)
     comps = [ms[i] for i in case["comps"]]
     hist = []
     for mid, m in enumerate(ms):
-        sim.fundamentals.add_market(market_id=mid, initial=100.0 + 10 * mid, drift=0.0, volatility=0.02)
+        sim.fundamentals.add_market(market_id=m.market_id, initial=100.0 + 10 * mid, drift=0.0, volatility=0.02)
     if case.get("registered"):
         # a hand-built simulator may also register the index market with the fundamentals generator; its recorded value is still the components' weighted average
         sim.fundamentals.add_market(market_id=idx.market_id, initial=450.0, drift=0.0, volatility=0.0)
@@ -133,6 +134,8 @@ def value_cases(tier):
             yield {"kind": "values", "seed": seed, "comps": comps, "steps": 3}
             if seed % 8 == 1:
                 yield {"kind": "values", "seed": seed, "comps": comps, "steps": 3, "registered": True}
+            if seed % 8 == 2:
+                yield {"kind": "values", "seed": seed, "comps": comps, "steps": 3, "index_id_low": True}
     # share patterns with arithmetic coincidences (first = mean of all, all equal, one dominating)
     for seed, shares in enumerate(([200, 100, 300], [100, 200, 300], [7, 7, 7], [300, 100, 200], [1, 1, 1000], [2, 1, 3])):
         for comps in ([0, 1, 2], [1, 2, 0], [2, 0, 1]):
